@@ -34,13 +34,13 @@ CHECKS = {
          "pipelines in which 2..6 stages share one task object with distinct overrides (parallel/chained/mixed, repeated, followed by a second pipeline and a direct run) — every execution's env/variables/dir must equal the task's settings overlaid with that stage's overrides and contain no foreign key; same through the binary.",
          "a stage execution is identified by a marker key of its own override", "DESIGN.md §4 C08"),
  "C13": ("exploration", "trace-token monitor (SURVIVED token after an overrunning command must never appear) on the real TaskRunner + process liveness + re-confirmed time bound",
-         "overrunning shapes at every command position and in hooks, with/without allow_failure, timeouts 100ms..1s; fitting commands and 'each command gets the full timeout' cases; duration spellings through the binary.",
+         "overrunning shapes at every command position and in hooks, with/without allow_failure, timeouts 100ms..1s; fitting commands and 'each command gets the full timeout' cases; through the binary: duration spellings, and overrunning commands run directly and as a pipeline stage (exit status, trace, the command's process gone after taskctl exited).",
          "overrun margin >=20x timeout makes the main oracle a safety observation; the wall-clock bound is secondary and re-confirmed", "DESIGN.md §4 C13"),
  "C09": ("exploration", "precedence-table oracle over values printed by commands run through the binary with a controlled parent environment",
-         "every non-empty subset of the six env levels (and of the five for direct runs) defines its own name under ascending, descending and shuffled value assignments; every subset of the three dir levels x two start directories with pwd in hooks and commands.",
+         "every non-empty subset of the six env levels (and of the five for direct runs) defines its own name under ascending, descending and shuffled value assignments; every subset of the three dir levels x two start directories with pwd in hooks and commands; several tasks (some defining nothing) run directly and as parallel/chained stages in one process, every execution compared with the levels that apply to it.",
          "names defined only by taskctl itself are not examined", "DESIGN.md §4 C09"),
- "C10": ("exploration", "precedence-table oracle for template variables, verbatim comparison of argument vectors, undefined-variable trace monitor (process boundary)",
-         "all subsets of the four variable levels; argument vectors containing target names, a=b, -v, --x and `--`; undefined variable at every command position, in before and dir.",
+ "C10": ("exploration", "precedence-table oracle for template variables, verbatim comparison of argument vectors, undefined-variable trace monitor (process boundary); in-process own-text/own-values monitor for parallel stages with templated commands + race detector",
+         "all subsets of the four variable levels; argument vectors containing target names, a=b, -v, --x and `--`; undefined variable at every command position, in before and dir; 4..10 parallel stages whose commands are distinct templates over their own variables (real scheduler and runner, plain and -race).",
          "argv with `--` before any target is outside the statement", "DESIGN.md §4 C10"),
  "C11": ("exploration", "byte-exact comparison of captured output and of what dependants read; porcupine linearizability check of recorded producer/consumer run histories; race detector",
          "producers with generated contents up to 64 KiB, printable-ASCII task names, exportAs, variations; consumers in several DAG positions; histories recorded at the Run boundary are checked against a per-key register model.",
